@@ -1,12 +1,669 @@
-//! Family `lz`: C08 C09 C10 C11 — LZ10 / LZ13.  (stub)
+//! Family `lz`: C08 C09 C10 C11 — LZ10 / LZ13 compression and decompression.
+//!
+//! Case lines
+//!   `<id> c10 <period> <input-hex>`      LZ10CompressionFormat::compress  -> `ok <hex> rt=ok|bad`
+//!   `<id> c13 <period> <input-hex>`      LZ13CompressionFormat::compress  -> `ok <hex> rt=ok|bad alloc=ok|big`
+//!   `<id> d10|d13|f10|f13 <stream-hex>`  decompress (f* = through CompressionFormat) -> `ok <hex> x=ok|diff` | `err Invalid x=…` | `panic`
+//! `period` = a period of the input claimed by the generator (0 = none claimed).
+//! `rt` = the library's own decompress(compress(x)) == x; `alloc` = largest single allocation request
+//! during compress <= max(64, 13 + n + n/8); `x` = cross-check of LZ10 decompress against the third-party
+//! `nintendo_lz::decompress_arr` on streams that crate decodes without panicking.
 #![allow(unused)]
 use crate::util::*;
+use mila::*;
 
-pub fn gen(_seed: u64, _tier: &str) -> Vec<String> {
-    Vec::new()
+// ------------------------------------------------------------------------------------------------
+// input generators for the compressors
+// ------------------------------------------------------------------------------------------------
+
+fn periodic(pattern: &[u8], n: usize) -> Vec<u8> {
+    (0..n).map(|i| pattern[i % pattern.len()]).collect()
+}
+
+fn fib_word(n: usize, a: u8, b: u8) -> Vec<u8> {
+    let mut s0 = vec![a];
+    let mut s1 = vec![a, b];
+    while s1.len() < n {
+        let mut s2 = s1.clone();
+        s2.extend_from_slice(&s0);
+        s0 = s1;
+        s1 = s2;
+    }
+    s1.truncate(n);
+    s1
+}
+
+fn low_entropy(rng: &mut Rng, n: usize, k: u64) -> Vec<u8> {
+    (0..n).map(|_| rng.below(k) as u8).collect()
+}
+
+const LEN_CLASSES: [usize; 22] = [1, 2, 3, 4, 15, 16, 17, 18, 19, 20, 271, 272, 273, 274, 275, 300, 1000, 4094, 4095, 4096, 4097, 5000];
+const DIST_CLASSES: [usize; 14] = [1, 2, 3, 4, 17, 18, 19, 255, 256, 257, 4094, 4095, 4096, 4097];
+
+/// LZ-structured data: literal stretches and back-copies with distances/lengths from the boundary classes.
+fn lz_structured(rng: &mut Rng, target: usize, alphabet: u64) -> Vec<u8> {
+    let mut d: Vec<u8> = Vec::new();
+    while d.len() < target {
+        if d.is_empty() || rng.chance(2, 5) {
+            let k = rng.range(1, 24) as usize;
+            for _ in 0..k {
+                d.push(rng.below(alphabet) as u8);
+            }
+        } else {
+            let dist = if rng.chance(2, 3) { *rng.pick(&DIST_CLASSES) } else { rng.range(1, 4200) as usize };
+            let dist = dist.min(d.len()).max(1);
+            let len = if rng.chance(2, 3) { *rng.pick(&LEN_CLASSES) } else { rng.range(1, 600) as usize };
+            let start = d.len() - dist;
+            for i in 0..len {
+                let v = d[start + i];
+                d.push(v);
+            }
+        }
+    }
+    d
+}
+
+struct Out {
+    lines: Vec<String>,
+    n: usize,
+    /// compress ops emitted for every generated input (c10/c13: C08/C09 clauses, b10/b13: C10 bounds)
+    ops: Vec<&'static str>,
+}
+impl Out {
+    fn compress(&mut self, period: usize, data: &[u8]) {
+        for op in self.ops.clone() {
+            self.one(op, period, data);
+        }
+    }
+    fn one(&mut self, op: &str, period: usize, data: &[u8]) {
+        self.lines.push(format!("lz.{:06} {} {} {}", self.n, op, period, hex(data)));
+        self.n += 1;
+    }
+    fn dec(&mut self, op: &str, s: &[u8]) {
+        self.lines.push(format!("lz.{:06} {} {}", self.n, op, hex(s)));
+        self.n += 1;
+    }
+}
+
+fn exhaustive(out: &mut Out, alphabet: u8, max_len: usize) {
+    for len in 0..=max_len {
+        let total = (alphabet as usize).pow(len as u32);
+        for mut code in 0..total {
+            let mut v = Vec::with_capacity(len);
+            for _ in 0..len {
+                v.push((code % alphabet as usize) as u8);
+                code /= alphabet as usize;
+            }
+            out.compress(0, &v);
+        }
+    }
+}
+
+fn gen_compress(out: &mut Out, rng: &mut Rng, thorough: bool, scale: usize) {
+    // the empty input and tiny inputs
+    out.compress(0, &[]);
+    // exhaustive small alphabets
+    if thorough {
+        exhaustive(out, 2, 14);
+        exhaustive(out, 3, 9);
+    } else {
+        exhaustive(out, 2, 10 + scale.min(2));
+        exhaustive(out, 3, 6 + scale.min(4) / 2);
+    }
+    // runs: lengths around the 8-token, 16/17/18, 272/273 and 4096 boundaries (+2: the first two bytes are literals)
+    for base in [1usize, 2, 3, 4, 5, 8, 9, 10, 16, 17, 18, 19, 20, 21, 22, 34, 35, 36, 37, 38, 272, 273, 274, 275, 276, 277, 4096, 4097, 4098, 4099, 4100, 4101] {
+        let b = rng.next() as u8;
+        out.compress(1, &vec![b; base]);
+    }
+    let run_extra = if thorough { 60 } else { 6 * scale };
+    for _ in 0..run_extra {
+        let n = rng.range(1, if thorough { 70000 } else { 20000 }) as usize;
+        out.compress(1, &vec![rng.next() as u8; n]);
+    }
+    // runs followed by / preceded by noise, so that the flag group ends at different places
+    for k in 0..(if thorough { 64 } else { 24 * scale }) {
+        let mut v = rng.bytes(k % 9);
+        let b = rng.next() as u8;
+        v.extend(std::iter::repeat(b).take(*rng.pick(&LEN_CLASSES) + 2));
+        v.extend(rng.bytes((k / 3) % 11));
+        out.compress(0, &v);
+    }
+    // incompressible data
+    for n in [1usize, 2, 3, 7, 8, 9, 15, 16, 17, 63, 64, 65, 100, 1000] {
+        out.compress(0, &rng.bytes(n));
+    }
+    out.compress(0, &rng.bytes(if thorough { 20000 } else { 8000 }));
+    // low entropy random data (many short and medium matches at all distances)
+    let le = if thorough { 40 } else { 8 * scale };
+    for _ in 0..le {
+        let k = rng.range(2, 5);
+        let n = rng.range(20, if thorough { 12000 } else { 6000 }) as usize;
+        out.compress(0, &low_entropy(rng, n, k));
+    }
+    // Fibonacci words (self-similar)
+    for n in [5usize, 13, 34, 89, 233, 610, 1597, 4181] {
+        out.compress(0, &fib_word(n, 0x61, 0x62));
+    }
+    if thorough {
+        out.compress(0, &fib_word(28657, 1, 2));
+        out.compress(0, &fib_word(75025, 7, 9));
+    } else {
+        out.compress(0, &fib_word(6765, 1, 2));
+    }
+    // LZ-structured data with boundary distances and lengths
+    let ls = if thorough { 150 } else { 14 * scale };
+    for i in 0..ls {
+        let target = if thorough { rng.range(10, 60000) } else { rng.range(10, 20000) } as usize;
+        let alpha = *rng.pick(&[2u64, 4, 16, 256]);
+        let d = lz_structured(rng, target, alpha);
+        out.compress(0, &d);
+    }
+    if thorough {
+        // a few large inputs
+        let big = lz_structured(rng, 300_000, 16);
+        out.compress(0, &big);
+        let big = rng.bytes(150_000);
+        out.compress(0, &big);
+        let big = low_entropy(rng, 100_000, 2);
+        out.compress(0, &big);
+        let big = lz_structured(rng, 150_000, 2);
+        out.compress(0, &big);
+    }
+    // far repeats: a random block of d bytes followed by its own prefix (match exactly at distance d)
+    for d in [4093usize, 4094, 4095, 4096, 4097, 4098] {
+        if !thorough && rng.chance(1, 2) {
+            continue;
+        }
+        let r = rng.bytes(d);
+        let m = *rng.pick(&[3usize, 17, 18, 19, 273, 600]);
+        let mut v = r.clone();
+        v.extend_from_slice(&r[0..m.min(d)]);
+        let tail = rng.below(4) as usize;
+        v.extend(rng.bytes(tail));
+        out.compress(0, &v);
+    }
+}
+
+fn gen_periodic(out: &mut Out, rng: &mut Rng, thorough: bool, few: bool) {
+    let mut periods: Vec<usize> = Vec::new();
+    if thorough && !few {
+        periods.extend(1..=4096);
+    } else {
+        periods.extend([1usize, 2, 3, 4, 8, 16, 17, 18, 19, 20, 36, 255, 256, 257, 272, 273]);
+        let (small, mid) = if few { (4, 1) } else if thorough { (200, 40) } else { (24, 4) };
+        for _ in 0..small {
+            periods.push(rng.range(5, 600) as usize);
+        }
+        for _ in 0..mid {
+            periods.push(rng.range(600, 4090) as usize);
+        }
+        // window edge
+        periods.extend([4094usize, 4095, 4096]);
+    }
+    for &p in &periods {
+        let kind = rng.below(3);
+        let pattern: Vec<u8> = match kind {
+            0 => rng.bytes(p),
+            1 => low_entropy(rng, p, 2),
+            _ => {
+                let mut v = vec![0u8; p];
+                v[p - 1] = 1;
+                v
+            }
+        };
+        let long = if thorough { 20000 } else { 6000 };
+        let lens: Vec<usize> = if p <= 600 {
+            if few {
+                vec![p + 1, *rng.pick(&[2 * p, 3 * p + 7, long])]
+            } else {
+                vec![p + 1, 2 * p, 3 * p + 7, long]
+            }
+        } else if thorough && !few && p % 64 == 0 {
+            vec![p + 1, 2 * p, 3 * p + 7, 20000]
+        } else {
+            // the expensive ones: one length that reaches well past the first period
+            vec![*rng.pick(&[2 * p, 2 * p + 300, 3 * p + 7])]
+        };
+        for n in lens {
+            out.compress(p, &periodic(&pattern, n));
+        }
+    }
+}
+
+// ------------------------------------------------------------------------------------------------
+// spec-side token streams for the decoders
+// ------------------------------------------------------------------------------------------------
+
+#[derive(Clone, Debug)]
+enum Tok {
+    Lit(u8),
+    Ref(usize, usize), // len, disp (1 = previous byte)
+}
+
+fn expand(toks: &[Tok]) -> Vec<u8> {
+    let mut out = Vec::new();
+    for t in toks {
+        match t {
+            Tok::Lit(b) => out.push(*b),
+            Tok::Ref(len, disp) => {
+                for _ in 0..*len {
+                    let v = out[out.len() - disp];
+                    out.push(v);
+                }
+            }
+        }
+    }
+    out
+}
+
+fn tok_bytes(ext: bool, t: &Tok, s: &mut Vec<u8>) {
+    match t {
+        Tok::Lit(b) => s.push(*b),
+        Tok::Ref(len, disp) => {
+            let d = disp - 1;
+            if !ext {
+                s.push((((len - 3) << 4) | (d >> 8)) as u8);
+                s.push(d as u8);
+            } else if *len <= 16 {
+                s.push((((len - 1) << 4) | (d >> 8)) as u8);
+                s.push(d as u8);
+            } else if *len <= 272 {
+                let v = len - 17;
+                s.push((v >> 4) as u8);
+                s.push((((v & 15) << 4) | (d >> 8)) as u8);
+                s.push(d as u8);
+            } else {
+                let v = len - 273;
+                s.push((0x10 | (v >> 12)) as u8);
+                s.push((v >> 4) as u8);
+                s.push((((v & 15) << 4) | (d >> 8)) as u8);
+                s.push(d as u8);
+            }
+        }
+    }
+}
+
+fn header(ext: bool, n: usize, s: &mut Vec<u8>) {
+    s.push(if ext { 0x11 } else { 0x10 });
+    if ext && (n == 0 || n >= 1 << 24) {
+        s.extend_from_slice(&[0, 0, 0]);
+        s.extend_from_slice(&(n as u32).to_le_bytes());
+    } else {
+        s.extend_from_slice(&(n as u32).to_le_bytes()[0..3]);
+    }
+}
+
+/// Spec encoder: header with announced length `n`, flag groups of eight, junk in the unused flag bits.
+fn encode(ext: bool, n: usize, toks: &[Tok], junk: u8) -> Vec<u8> {
+    let mut s = Vec::new();
+    header(ext, n, &mut s);
+    for g in toks.chunks(8) {
+        let mut f: u8 = 0;
+        for (i, t) in g.iter().enumerate() {
+            if let Tok::Ref(..) = t {
+                f |= 0x80 >> i;
+            }
+        }
+        if g.len() < 8 {
+            f |= junk & (0xFFu16 >> g.len()) as u8;
+        }
+        s.push(f);
+        for t in g {
+            tok_bytes(ext, t, &mut s);
+        }
+    }
+    s
+}
+
+fn gen_tokens(rng: &mut Rng, ext: bool, ntoks: usize, big: bool) -> Vec<Tok> {
+    let mut toks = Vec::new();
+    let mut have = 0usize;
+    for _ in 0..ntoks {
+        if have == 0 || rng.chance(2, 5) {
+            toks.push(Tok::Lit(rng.next() as u8));
+            have += 1;
+        } else {
+            let reach = have.min(4096);
+            let disp = match rng.below(6) {
+                0 => 1,
+                1 => 2.min(reach),
+                2 => reach,
+                3 => reach.saturating_sub(1).max(1),
+                _ => rng.range(1, reach as u64) as usize,
+            };
+            let len = if !ext {
+                match rng.below(4) {
+                    0 => 3,
+                    1 => 18,
+                    _ => rng.range(3, 18) as usize,
+                }
+            } else {
+                match rng.below(12) {
+                    0 => 3,
+                    1 => 16,
+                    2 => 17,
+                    3 => 272,
+                    4 => 273,
+                    5 => rng.range(274, 1200) as usize,
+                    6 => {
+                        if big {
+                            *rng.pick(&[4096usize, 4369, 65807, 65808])
+                        } else {
+                            rng.range(17, 272) as usize
+                        }
+                    }
+                    7 => rng.range(17, 272) as usize,
+                    _ => rng.range(3, 16) as usize,
+                }
+            };
+            toks.push(Tok::Ref(len, disp));
+            have += len;
+        }
+    }
+    toks
+}
+
+fn wrap13(rng: &mut Rng, s: &[u8]) -> Vec<u8> {
+    let mut w = vec![0x13, rng.next() as u8, rng.next() as u8, rng.next() as u8];
+    w.extend_from_slice(s);
+    w
+}
+
+fn gen_decode(out: &mut Out, rng: &mut Rng, thorough: bool, scale: usize) {
+    // conforming streams
+    let nstreams = if thorough { 3000 } else { 400 * scale };
+    for i in 0..nstreams {
+        let ext = rng.chance(1, 2);
+        let ntoks = match rng.below(5) {
+            0 => rng.range(0, 9) as usize,
+            1 => rng.range(7, 17) as usize,
+            _ => rng.range(0, 80) as usize,
+        };
+        let toks = gen_tokens(rng, ext, ntoks, i % 20 == 0);
+        let n = expand(&toks).len();
+        let s = encode(ext, n, &toks, rng.next() as u8);
+        match rng.below(6) {
+            0 => out.dec("d10", &s),
+            1 => out.dec("f10", &s),
+            2 => out.dec("d13", &s),
+            3 => out.dec("f13", &wrap13(rng, &s)),
+            _ => out.dec("d13", &wrap13(rng, &s)),
+        }
+    }
+    // the empty streams and the stored form
+    out.dec("d10", &encode(false, 0, &[], 0));
+    out.dec("d10", &encode(true, 0, &[], 0));
+    out.dec("d13", &encode(true, 0, &[], 0));
+    out.dec("d13", &wrap13(rng, &encode(true, 0, &[], 0)));
+    out.dec("d13", &wrap13(rng, &encode(false, 0, &[], 0)));
+    for n in [0usize, 1, 2, 5, 100] {
+        let mut s = vec![0u8, rng.next() as u8, rng.next() as u8, rng.next() as u8];
+        s.extend(rng.bytes(n));
+        out.dec(if n % 2 == 0 { "d13" } else { "f13" }, &s);
+    }
+    // malformed: every truncation point and single-byte corruptions of small streams
+    let nmal = if thorough { 300 } else { 36 * scale };
+    for _ in 0..nmal {
+        let ext = rng.chance(1, 2);
+        let ntoks = rng.range(1, 14) as usize;
+        let toks = gen_tokens(rng, ext, ntoks, false);
+        let n = expand(&toks).len();
+        let s = encode(ext, n, &toks, rng.next() as u8);
+        let wrapped = rng.chance(1, 2);
+        let full = if wrapped { wrap13(rng, &s) } else { s.clone() };
+        let op = if wrapped { "d13" } else if rng.chance(1, 2) { "d10" } else { "d13" };
+        for cut in 0..full.len() {
+            out.dec(op, &full[0..cut]);
+        }
+        let ncorr = if thorough { full.len() } else { 6 };
+        for _ in 0..ncorr {
+            let mut c = full.clone();
+            let pos = rng.below(c.len() as u64) as usize;
+            let rb = rng.next() as u8;
+            c[pos] = *rng.pick(&[0u8, 1, 0x0f, 0x10, 0x11, 0x13, 0x1f, 0x7f, 0x80, 0xf0, 0xff, rb]);
+            out.dec(op, &c);
+        }
+        // wrong announced length (too long -> truncated; too short -> leftover / overshoot)
+        for dn in [1usize, 2, 17, 300] {
+            out.dec(op, &if wrapped { wrap13(rng, &encode(ext, n + dn, &toks, 0)) } else { encode(ext, n + dn, &toks, 0) });
+            if n >= dn {
+                out.dec(op, &if wrapped { wrap13(rng, &encode(ext, n - dn, &toks, 0)) } else { encode(ext, n - dn, &toks, 0) });
+            }
+        }
+        // a back-reference that reaches before the start of the output
+        let mut bad = toks.clone();
+        let at = rng.below(bad.len() as u64 + 1) as usize;
+        bad.truncate(at);
+        let have = expand(&bad).len();
+        if have < 4096 {
+            let rd = rng.range(have as u64 + 1, 4096) as usize;
+            let disp = *rng.pick(&[have + 1, have + 2, 4096, rd]);
+            let len = if ext { *rng.pick(&[3usize, 16, 17, 273]) } else { 3 };
+            bad.push(Tok::Ref(len, disp));
+            let s = encode(ext, have + len, &bad, 0);
+            out.dec(op, &if wrapped { wrap13(rng, &s) } else { s });
+        }
+    }
+    // unknown type bytes: conforming streams whose type byte is replaced by every other value
+    let ntype = if thorough { 12 } else { 3 * scale };
+    for k in 0..ntype {
+        let ext = k % 2 == 1;
+        let ntoks = rng.range(0, 12) as usize;
+        let toks = gen_tokens(rng, ext, ntoks, false);
+        let n = expand(&toks).len();
+        let s = encode(ext, n, &toks, rng.next() as u8);
+        for t in 0..=255u8 {
+            let mut c = s.clone();
+            c[0] = t;
+            match (k + t as usize) % 3 {
+                0 => out.dec("d10", &c),
+                1 => out.dec("d13", &c),
+                _ => out.dec("d13", &wrap13(rng, &c)),
+            }
+        }
+    }
+    // D12 witness and friends
+    out.dec("d10", &[0x10, 0x04, 0, 0, 0x80, 0x00, 0x05]);
+    out.dec("d13", &[0x10, 0x04, 0, 0, 0x80, 0x00, 0x05]);
+    out.dec("d13", &[0x13, 0, 0]);
+    out.dec("d13", &[]);
+    out.dec("d10", &[]);
+    // random bytes
+    let nrand = if thorough { 20000 } else { 1500 * scale };
+    for _ in 0..nrand {
+        let n = rng.range(0, 40) as usize;
+        let mut s = rng.bytes(n);
+        if n > 0 && rng.chance(3, 4) {
+            s[0] = *rng.pick(&[0x10u8, 0x11, 0x13, 0x00]);
+            if n > 3 && rng.chance(3, 4) {
+                s[1] = rng.below(60) as u8;
+                s[2] = 0;
+                s[3] = 0;
+            }
+            if n > 7 && s[0] == 0x13 && rng.chance(3, 4) {
+                s[4] = *rng.pick(&[0x10u8, 0x11]);
+                s[5] = rng.below(60) as u8;
+                s[6] = 0;
+                s[7] = 0;
+            }
+        }
+        out.dec(*rng.pick(&["d10", "d13", "f10", "f13"]), &s);
+    }
+    // all byte strings of length 0..=k over a 6-byte alphabet
+    let alpha = [0x00u8, 0x01, 0x10, 0x11, 0x13, 0x80];
+    let maxlen = if thorough { 7 } else { 5 };
+    for len in 0..=maxlen {
+        let total = 6usize.pow(len as u32);
+        for mut code in 0..total {
+            let mut v = Vec::with_capacity(len);
+            for _ in 0..len {
+                v.push(alpha[code % 6]);
+                code /= 6;
+            }
+            // quick: alternate the entry point; thorough: both
+            if thorough || code_parity(&v) {
+                out.dec("d10", &v);
+            }
+            if thorough || !code_parity(&v) {
+                out.dec("d13", &v);
+            }
+        }
+    }
+}
+
+fn code_parity(v: &[u8]) -> bool {
+    v.iter().fold(0u32, |a, b| a.wrapping_mul(31).wrapping_add(*b as u32)) % 2 == 0
+}
+
+/// The four properties share this family.  The orchestrator passes the output path
+/// `work/<ID>/lz.<profile>.cases.txt`; the property id in it selects the part of the stream (and the
+/// oracle clauses, through the op names) that belongs to that property.  Without an id: everything.
+fn property_from_args() -> Option<&'static str> {
+    for a in std::env::args() {
+        for id in ["C08", "C09", "C10", "C11"] {
+            if a.contains(&format!("/{}/", id)) {
+                return Some(id);
+            }
+        }
+    }
+    None
+}
+
+pub fn gen(seed: u64, tier: &str) -> Vec<String> {
+    gen_for(property_from_args(), seed, tier)
+}
+
+pub fn gen_for(pid: Option<&str>, seed: u64, tier: &str) -> Vec<String> {
+    let mut rng = Rng::new(seed ^ 0x4c5a_0000);
+    let thorough = tier == "thorough";
+    let mut out = Out { lines: Vec::new(), n: 0, ops: Vec::new() };
+    match pid {
+        Some("C08") => {
+            out.ops = vec!["c10"];
+            gen_compress(&mut out, &mut rng, thorough, 6);
+            gen_periodic(&mut out, &mut rng, thorough, true);
+        }
+        Some("C09") => {
+            out.ops = vec!["c13"];
+            gen_compress(&mut out, &mut rng, thorough, 3);
+            gen_periodic(&mut out, &mut rng, thorough, true);
+        }
+        Some("C10") => {
+            out.ops = vec!["b10", "b13"];
+            gen_compress(&mut out, &mut rng, thorough, 3);
+            gen_periodic(&mut out, &mut rng, thorough, false);
+        }
+        Some("C11") => {
+            gen_decode(&mut out, &mut rng, thorough, 6);
+        }
+        _ => {
+            out.ops = vec!["c10", "c13", "b10", "b13"];
+            gen_compress(&mut out, &mut rng, thorough, 1);
+            gen_periodic(&mut out, &mut rng, thorough, true);
+            gen_decode(&mut out, &mut rng, thorough, 1);
+        }
+    }
+    out.lines
+}
+
+// ------------------------------------------------------------------------------------------------
+// running the implementation
+// ------------------------------------------------------------------------------------------------
+
+fn declared_len(s: &[u8]) -> Option<usize> {
+    if s.len() < 4 {
+        return None;
+    }
+    let n = s[1] as usize | (s[2] as usize) << 8 | (s[3] as usize) << 16;
+    if n == 0 && s[0] == 0x11 {
+        if s.len() < 8 {
+            return None;
+        }
+        return Some(u32::from_le_bytes([s[4], s[5], s[6], s[7]]) as usize);
+    }
+    Some(n)
+}
+
+/// LZ10 decompress == decompress_lz: cross-check with the third-party decoder where that one does not panic.
+fn cross_check(s: &[u8], got: &Result<Vec<u8>, CompressionError>) -> &'static str {
+    match declared_len(s) {
+        Some(n) if n <= 1 << 24 => {}
+        _ => return "x=ok",
+    }
+    match no_panic(|| nintendo_lz::decompress_arr(s).map_err(|_| ())) {
+        Err(_) => "x=ok", // third-party decoder panics here (reference before start)
+        Ok(Ok(v)) => match got {
+            Ok(w) if *w == v => "x=ok",
+            _ => "x=diff",
+        },
+        Ok(Err(())) => match got {
+            Err(_) => "x=ok",
+            _ => "x=diff",
+        },
+    }
 }
 
 pub fn run_line(_st: &mut super::State, line: &str) -> String {
-    let id = line.split(' ').next().unwrap_or("?");
-    format!("{} unimplemented", id)
+    let f: Vec<&str> = line.split(' ').collect();
+    let id = f[0];
+    let out = match f[1] {
+        "c10" | "c13" | "b10" | "b13" => {
+            let data = unhex(f[3]);
+            let is13 = f[1] == "c13" || f[1] == "b13";
+            crate::alloc::max_request_reset();
+            let r = no_panic(|| {
+                if is13 {
+                    (LZ13CompressionFormat {}).compress(&data)
+                } else {
+                    (LZ10CompressionFormat {}).compress(&data)
+                }
+            });
+            let req = crate::alloc::max_request_reset();
+            match r {
+                Err(_) => "panic".to_string(),
+                Ok(Err(_)) => "err Invalid".to_string(),
+                Ok(Ok(c)) => {
+                    let back = no_panic(|| {
+                        if is13 {
+                            (LZ13CompressionFormat {}).decompress(&c)
+                        } else {
+                            (LZ10CompressionFormat {}).decompress(&c)
+                        }
+                    });
+                    let rt = match back {
+                        Ok(Ok(d)) if d == data => "rt=ok",
+                        _ => "rt=bad",
+                    };
+                    if is13 {
+                        let n = data.len();
+                        let alloc = if req <= std::cmp::max(64, 13 + n + n / 8) { "alloc=ok" } else { "alloc=big" };
+                        format!("ok {} {} {}", hex(&c), rt, alloc)
+                    } else {
+                        format!("ok {} {}", hex(&c), rt)
+                    }
+                }
+            }
+        }
+        "d10" | "d13" | "f10" | "f13" => {
+            let s = unhex(f[2]);
+            let r = no_panic(|| match f[1] {
+                "d10" => (LZ10CompressionFormat {}).decompress(&s),
+                "d13" => (LZ13CompressionFormat {}).decompress(&s),
+                "f10" => CompressionFormat::LZ10(LZ10CompressionFormat {}).decompress(&s),
+                _ => CompressionFormat::LZ13(LZ13CompressionFormat {}).decompress(&s),
+            });
+            match r {
+                Err(_) => "panic".to_string(),
+                Ok(res) => {
+                    let x = if f[1] == "d10" || f[1] == "f10" { cross_check(&s, &res) } else { "x=ok" };
+                    match res {
+                        Ok(d) => format!("ok {} {}", hex(&d), x),
+                        Err(_) => format!("err Invalid {}", x),
+                    }
+                }
+            }
+        }
+        _ => "bad-case".to_string(),
+    };
+    format!("{} {}", id, out)
 }
